@@ -304,6 +304,7 @@ fn static_cfg() -> WorldCfg {
     cfg.n_contracts = 3..=5;
     cfg.prog.callees = (pool::IDX_CONTRACT0..pool::IDX_CONTRACT0 + 5).collect();
     cfg.prog.static_bias = true;
+    cfg.prog.call_weight = 22;
     cfg
 }
 
@@ -376,6 +377,7 @@ fn raw_world(c: &RawCodeCase) -> WorldCase {
             nonce: vgen::world::NonceSel::Correct,
             chain: vgen::world::ChainSel::Correct,
             access_list: vec![],
+            access_extra: vec![],
             blobs: vec![],
             blob_fee_delta: 0,
             auths: vec![],
@@ -413,8 +415,28 @@ fn raw_code() -> impl Strategy<Value = Vec<u8>> {
         3 => prop::sample::select(vec![0x5bu8, 0x56, 0x57, 0x5a, 0x80, 0x81, 0x90, 0x51, 0x52, 0x53, 0x37, 0x39, 0x3e, 0x3d, 0xf1, 0xf4, 0xfa, 0xf0, 0xf5, 0xf3, 0xfd, 0x5e, 0x20, 0xa0]),
         2 => prop::sample::select(vec![0u8, 1, 2, 0x20, 0x40, 0xff]),
     ];
+    // stack pre-loaded with small words, then mostly defined opcodes: reaches deep executions
+    let defined = prop_oneof![
+        10 => prop::sample::select((0u8..=0xff).filter(|o| matches!(o, 0x01..=0x0b | 0x10..=0x1d | 0x20 | 0x30..=0x48 | 0x50..=0x5b | 0x5f | 0x80..=0xa4 | 0xf1 | 0xf2 | 0xf4 | 0xfa | 0x3d | 0x3e)).collect::<Vec<u8>>()),
+        3 => (0u8..=0x60).prop_map(|v| v), // raw bytes that follow a PUSH1 (see below) or small opcodes
+        1 => any::<u8>(),
+    ];
+    let deep = (4usize..14, prop::collection::vec((defined, any::<u8>()), 0..100)).prop_map(|(pre, body)| {
+        let mut v = vec![];
+        for i in 0..pre {
+            v.extend_from_slice(&[0x60, (i as u8) * 7 % 97]);
+        }
+        for (op, imm) in body {
+            v.push(op);
+            if imm % 5 == 0 {
+                v.extend_from_slice(&[0x60, imm % 70]);
+            }
+        }
+        v
+    });
     prop_oneof![
         4 => prop::collection::vec(hot.clone(), 0..120),
+        6 => deep,
         1 => prop::collection::vec(any::<u8>(), 0..600),
         1 => (prop::collection::vec(hot, 0..60), 0x60u8..=0x7f, 0usize..33).prop_map(|(mut v, p, k)| { v.push(p); v.extend(std::iter::repeat(0x5b).take(k.min((p - 0x5f) as usize))); v }),
     ]
@@ -913,6 +935,7 @@ fn depth_world(c: &DepthCase) -> WorldCase {
             nonce: vgen::world::NonceSel::Correct,
             chain: vgen::world::ChainSel::Correct,
             access_list: vec![],
+            access_extra: vec![],
             blobs: vec![],
             blob_fee_delta: 0,
             auths: vec![],
